@@ -3,10 +3,12 @@
   Property theorems only; helper lemmas live in Proofs/VerRpm.lean,
   Proofs/Matchers.lean.  The models (Model/VerRpm.lean, Model/Matchers.lean) are
   tied to the pinned go-rpm-version and to <ecosystem>/matcher.go, archop.go by
-  the correspondence run of `./check C03`.
+  the correspondence run of `./check C03`.  The scan-level part (Model/MatchScan.lean,
+  Proofs/MatchScan.lean) is at the end of the file.
 -/
 import ClairModel.Proofs.Matchers
 import ClairModel.Proofs.MatchersLang
+import ClairModel.Proofs.MatchScan
 import ClairModel.Gen.Matchers
 
 -- every variable of a property statement is bound explicitly: a misspelt name is an error, not a new variable
@@ -732,6 +734,266 @@ theorem monotone_alpine (p p' : Pkg) (v : Vuln) (h : vulnerableAlpine p v = .ok 
           exact lt_down VerApk.compare_totalPre h hle
         · simp [h1, h2] at h
       · simp [h1] at h
+
+/-! ### Scan level: the registered default matchers through `Controller.Match` / `matcher.Match`
+
+`MatchScan.matchOne m recs advs` is what one controller delivers for the
+records of an IndexReport and the rows of the `vuln` table; `scanPairs` what
+`matcher.Match` (the body of `libvuln.Scan`) lists in
+`PackageVulnerabilities`. -/
+
+section Scan
+open ClairModel.MatchScan
+
+/-- The report lists exactly what the controllers of the matcher set deliver. -/
+theorem scan_listed_iff_some_matcher (ms : List MatcherId) (recs : List Rec) (advs : List Adv) (p : Str × Str) :
+    p ∈ scanPairs ms recs advs ↔ ∃ m ∈ ms, p ∈ contrib m recs advs := by
+  simp [scanPairs, List.mem_flatMap]
+
+/-- A matcher none of whose records pass its `Filter` lists nothing (and does not ask the store). -/
+theorem scan_not_interested_not_listed (m : MatcherId) (recs : List Rec) (advs : List Adv)
+    (h : ∀ r ∈ recs, MatchScan.filter m r = false) : matchOne m recs advs = .ok [] := by
+  have : recs.filter (MatchScan.filter m) = [] := by
+    rw [List.filter_eq_nil_iff]
+    intro r hr; simp [h r hr]
+  simp [matchOne, this]
+
+/-- A matcher whose `Vulnerable` decides (every built-in one but gobin and
+    nodejs): an advisory is listed for a package exactly when some record of
+    the package that passes the matcher's `Filter` is reported by `Vulnerable`
+    against it, and the store returned the row for the package — i.e. some
+    record of the package that passes the `Filter` and can be queried agrees
+    with the row on the package (or source package) name and kind, on every
+    constraint of `Query()`, and, for a `VersionFilter`, lies in the row's range. -/
+theorem scan_listed_iff (m : MatcherId) (hm : authoritative m = false) (recs : List Rec) (advs : List Adv)
+    (l : List (Str × Str)) (h : matchOne m recs advs = .ok l) (pid aid : Str) :
+    (pid, aid) ∈ l ↔
+      ∃ r ∈ recs, MatchScan.filter m r = true ∧ r.pkgID = pid ∧
+        ∃ a ∈ advs, a.id = aid ∧ vulnerableOf m r a = .ok true ∧
+          ∃ r' ∈ recs, MatchScan.filter m r' = true ∧ r'.pkgID = pid ∧ buildable (query m) r' = true ∧
+            rowMatches (query m) (versionFilter m) r' a = true := by
+  rw [matchOne_nonauth hm] at h
+  split at h
+  · next hemp =>
+    simp only [Res.ok.injEq] at h
+    subst h
+    have hnil : recs.filter (MatchScan.filter m) = [] := by simpa using hemp
+    constructor
+    · intro hc; simp at hc
+    · rintro ⟨r, hr, hf, -, -⟩
+      have : r ∈ recs.filter (MatchScan.filter m) := List.mem_filter.mpr ⟨hr, hf⟩
+      rw [hnil] at this; simp at this
+  · rw [mem_filterRecs h (pid, aid)]
+    constructor
+    · rintro ⟨r, hr, a, ha, hp, hv⟩
+      obtain ⟨hr1, hr2⟩ := List.mem_filter.mp hr
+      obtain ⟨ha1, r', hr', hpid, hb, hrow⟩ := mem_fetched.mp ha
+      obtain ⟨hr'1, hr'2⟩ := List.mem_filter.mp hr'
+      simp only [Prod.mk.injEq] at hp
+      exact ⟨r, hr1, hr2, hp.1.symm, a, ha1, hp.2.symm, hv, r', hr'1, hr'2, by rw [hpid, hp.1], hb, hrow⟩
+    · rintro ⟨r, hr, hf, hpid, a, ha, haid, hv, r', hr', hf', hpid', hb, hrow⟩
+      refine ⟨r, List.mem_filter.mpr ⟨hr, hf⟩, a, ?_, by rw [hpid, haid], hv⟩
+      exact mem_fetched.mpr ⟨ha, r', List.mem_filter.mpr ⟨hr', hf'⟩, by rw [hpid', hpid], hb, hrow⟩
+
+/-- gobin and nodejs (authoritative version filters): the advisory is listed
+    once the store returns the row — the record's normalized version lies in
+    the row's range (`rowMatches` with the version filter on). -/
+theorem scan_listed_iff_authoritative (m : MatcherId) (hm : authoritative m = true) (recs : List Rec) (advs : List Adv)
+    (l : List (Str × Str)) (h : matchOne m recs advs = .ok l) (pid aid : Str) :
+    (pid, aid) ∈ l ↔
+      ∃ a ∈ advs, a.id = aid ∧
+        ∃ r ∈ recs, MatchScan.filter m r = true ∧ r.pkgID = pid ∧ buildable (query m) r = true ∧
+          rowMatches (query m) (versionFilter m) r a = true := by
+  rw [matchOne_auth hm] at h
+  split at h
+  · next hemp =>
+    simp only [Res.ok.injEq] at h
+    subst h
+    have hnil : recs.filter (MatchScan.filter m) = [] := by simpa using hemp
+    constructor
+    · intro hc; simp at hc
+    · rintro ⟨a, -, -, r, hr, hf, -⟩
+      have : r ∈ recs.filter (MatchScan.filter m) := List.mem_filter.mpr ⟨hr, hf⟩
+      rw [hnil] at this; simp at this
+  · simp only [Res.ok.injEq] at h
+    subst h
+    simp only [List.mem_flatMap, List.mem_map, Prod.mk.injEq]
+    constructor
+    · rintro ⟨pid', -, a, ha, hp1, hp2⟩
+      obtain ⟨ha1, r, hr, hpid, hb, hrow⟩ := mem_fetched.mp ha
+      obtain ⟨hr1, hr2⟩ := List.mem_filter.mp hr
+      exact ⟨a, ha1, hp2, r, hr1, hr2, by rw [hpid, hp1], hb, hrow⟩
+    · rintro ⟨a, ha, haid, r, hr, hf, hpid, hb, hrow⟩
+      refine ⟨pid, ?_, a, ?_, rfl, haid⟩
+      · rw [mem_dedup, List.mem_map]
+        exact ⟨r, List.mem_filter.mpr ⟨List.mem_filter.mpr ⟨hr, hf⟩, hb⟩, hpid⟩
+      · exact mem_fetched.mpr ⟨ha, r, List.mem_filter.mpr ⟨hr, hf⟩, hpid, hb, hrow⟩
+
+/-- What "the store returned the row" means, constraint by constraint. -/
+theorem scan_row_matches_iff (cs : List Constraint) (vf : Bool) (r : Rec) (a : Adv) :
+    rowMatches cs vf r a = true ↔
+      nameMatches r a = true ∧ (∀ c ∈ cs, holds c r a = true) ∧ (vf = true → dbSideHit a.range r.nver = true) := by
+  simp only [rowMatches, Bool.and_eq_true, List.all_eq_true, Bool.or_eq_true, Bool.not_eq_eq_eq_not, Bool.not_true]
+  constructor
+  · rintro ⟨⟨h1, h2⟩, h3⟩
+    refine ⟨h1, h2, ?_⟩
+    intro hv; rcases h3 with h3 | h3
+    · rw [hv] at h3; simp at h3
+    · exact h3
+  · rintro ⟨h1, h2, h3⟩
+    refine ⟨⟨h1, h2⟩, ?_⟩
+    cases vf with
+    | false => exact Or.inl rfl
+    | true => exact Or.inr (h3 rfl)
+
+/-- A controller fails only because a `Vulnerable` call on a record that
+    passes the matcher's `Filter` failed (the store of the model does not fail). -/
+theorem scan_error_only_from_vulnerable (m : MatcherId) (recs : List Rec) (advs : List Adv)
+    (h : matchOne m recs advs = .err) :
+    ∃ r ∈ recs, MatchScan.filter m r = true ∧ ∃ a ∈ advs, vulnerableOf m r a = .err := by
+  cases hm : authoritative m with
+  | true =>
+    rw [matchOne_auth hm] at h
+    split at h <;> simp at h
+  | false =>
+    rw [matchOne_nonauth hm] at h
+    split at h
+    · simp at h
+    · obtain ⟨r, hr, a, ha, hv⟩ := filterRecs_err h
+      exact ⟨r, (List.mem_filter.mp hr).1, (List.mem_filter.mp hr).2, a, (mem_fetched.mp ha).1, hv⟩
+
+/-- rhel configured with `ignore_unpatched`: an advisory without a fixed
+    version is never listed by the rhel matcher … -/
+theorem scan_ignore_unpatched (recs : List Rec) (advs : List Adv) (l : List (Str × Str))
+    (h : matchOne (.rhel true) recs advs = .ok l) (pid aid : Str) (hin : (pid, aid) ∈ l) :
+    ∃ a ∈ advs, a.id = aid ∧ a.v.fixed ≠ [] := by
+  obtain ⟨r, -, -, -, a, ha, haid, -, r', -, -, -, -, hrow⟩ :=
+    (scan_listed_iff (.rhel true) rfl recs advs l h pid aid).mp hin
+  refine ⟨a, ha, haid, ?_⟩
+  have := ((scan_row_matches_iff _ _ r' a).mp hrow).2.1 .hasFixedInVersion (by simp [query])
+  simpa [holds] using this
+
+/-- … while the default configuration lists it as unfixed (package `1.0-1`
+    of repository `cpe:/o:redhat:enterprise_linux:8::baseos`, advisory without
+    fix for that CPE). -/
+theorem scan_unpatched_listed_by_default :
+    let r : Rec := { pkgID := "1".toList, name := "openssl".toList, pkg := { version := "1.0-1".toList },
+                     repo := some { key := sRhelKey, cpe := "cpe:2.3:o:redhat:enterprise_linux:8:*:baseos:*:*:*:*:*".toList } }
+    let a : Adv := { id := "7".toList, name := "openssl".toList, repoKey := sRhelKey, v := { fixed := [] },
+                     cpe := some "cpe:2.3:o:redhat:enterprise_linux:8:*:baseos:*:*:*:*:*".toList, superset := [true] }
+    matchOne (.rhel false) [r] [a] = .ok [("1".toList, "7".toList)] ∧ matchOne (.rhel true) [r] [a] = .ok [] := by
+  decide
+
+/-- Listed by one of the rpm matchers for an advisory that names a fix: some
+    record of the package has a version strictly below the fix in rpm's order
+    (and, for all but photon, passes the architecture test). -/
+theorem scan_listed_below_fix_rpm (m : MatcherId) (hm : m ∈ [MatcherId.aws, .oracle, .suse, .photon, .rhel false, .rhel true])
+    (recs : List Rec) (advs : List Adv) (l : List (Str × Str)) (h : matchOne m recs advs = .ok l)
+    (pid aid : Str) (hin : (pid, aid) ∈ l) :
+    ∃ r ∈ recs, r.pkgID = pid ∧ ∃ a ∈ advs, a.id = aid ∧
+      (a.v.fixed ≠ [] → VerRpm.cmpStr r.pkg.version a.v.fixed = .lt) ∧
+      (m ≠ .photon → a.v.archOK r.pkg = true) := by
+  have hauth : authoritative m = false := by
+    simp only [List.mem_cons, List.mem_nil_iff, or_false] at hm
+    rcases hm with rfl | rfl | rfl | rfl | rfl | rfl <;> rfl
+  obtain ⟨r, hr, -, hpid, a, ha, haid, hv, -⟩ := (scan_listed_iff m hauth recs advs l h pid aid).mp hin
+  refine ⟨r, hr, hpid, a, ha, haid, ?_⟩
+  simp only [List.mem_cons, List.mem_nil_iff, or_false] at hm
+  rcases hm with rfl | rfl | rfl | rfl | rfl | rfl
+  · simp only [vulnerableOf, vulnerableAws, Out.ok.injEq, Bool.and_eq_true] at hv
+    exact ⟨fun hf => by simpa [rpmBelow_fix hf] using hv.1, fun _ => hv.2⟩
+  · simp only [vulnerableOf, vulnerableOracle, Out.ok.injEq, Bool.and_eq_true] at hv
+    exact ⟨fun hf => by simpa [rpmBelow_fix hf] using hv.1, fun _ => hv.2⟩
+  · simp only [vulnerableOf, vulnerableSuse, Out.ok.injEq, Bool.and_eq_true] at hv
+    exact ⟨fun hf => by simpa [rpmBelow_fix hf] using hv.1, fun _ => hv.2⟩
+  · simp only [vulnerableOf, vulnerablePhoton, Out.ok.injEq] at hv
+    exact ⟨fun hf => by simpa [rpmBelow_fix hf] using hv, fun hne => absurd rfl hne⟩
+  · simp only [vulnerableOf, vulnerableRhel_eq, Out.ok.injEq, Bool.and_eq_true] at hv
+    exact ⟨fun hf => by simpa [rpmBelow_fix hf] using hv.2.1, fun _ => hv.2.2⟩
+  · simp only [vulnerableOf, vulnerableRhel_eq, Out.ok.injEq, Bool.and_eq_true] at hv
+    exact ⟨fun hf => by simpa [rpmBelow_fix hf] using hv.2.1, fun _ => hv.2.2⟩
+
+/-- rhel's "CPE pattern" test on the formatted strings: the advisory's CPE
+    without its trailing `:*` run is a prefix of the record's. -/
+theorem cpe_substring_iff (rc vc : Str) :
+    cpeSubstring rc vc = true ↔ ∃ rest, rc = trimRight (fun c => c = ':' || c = '*') vc ++ rest := by
+  unfold cpeSubstring
+  generalize trimRight (fun c => c = ':' || c = '*') vc = t
+  induction t generalizing rc with
+  | nil => simp [isPrefix]
+  | cons x xs ih =>
+    cases rc with
+    | nil => simp [isPrefix]
+    | cons y ys =>
+      simp only [isPrefix, Bool.and_eq_true, decide_eq_true_eq, ih, List.cons_append, List.cons.injEq]
+      constructor
+      · rintro ⟨rfl, rest, rfl⟩; exact ⟨rest, rfl, rfl⟩
+      · rintro ⟨rest, rfl, rfl⟩; exact ⟨rfl, rest, rfl⟩
+
+example : cpeSubstring "cpe:2.3:a:redhat:openshift:4.13:*:el8:*:*:*:*:*".toList "cpe:2.3:a:redhat:openshift:4:*:*:*:*:*:*:*".toList = true ∧
+    cpeSubstring "cpe:2.3:a:redhat:openshift:3.11:*:el8:*:*:*:*:*".toList "cpe:2.3:a:redhat:openshift:4:*:*:*:*:*:*:*".toList = false := by
+  decide
+
+/-! #### Tie A for the scan level -/
+
+/-- Names, `Query()` lists, version-filter flags of the model's matchers are
+    those of the sources; rhel adds `HasFixedInVersion` under `m.ignoreUnpatched` only. -/
+theorem gen_scan_matcher_facts :
+    (∀ p ∈ [(MatcherId.alpine, Gen.Matchers.alpine), (.aws, Gen.Matchers.aws), (.debian, Gen.Matchers.debian),
+            (.ubuntu, Gen.Matchers.ubuntu), (.oracle, Gen.Matchers.oracle), (.photon, Gen.Matchers.photon),
+            (.suse, Gen.Matchers.suse), (.rhel false, Gen.Matchers.rhel), (.rhcc, Gen.Matchers.rhcc),
+            (.python, Gen.Matchers.python), (.java, Gen.Matchers.java), (.ruby, Gen.Matchers.ruby),
+            (.gobin, Gen.Matchers.gobin), (.nodejs, Gen.Matchers.nodejs)],
+       MatchScan.name p.1 = p.2.name ∧ (query p.1).map Constraint.goName = p.2.query ∧
+       versionFilter p.1 = p.2.versionFilter ∧ authoritative p.1 = p.2.authoritative) ∧
+    Gen.Matchers.rhel.queryIf = ["m.ignoreUnpatched:HasFixedInVersion"] ∧
+    (query (.rhel true)).map Constraint.goName = Gen.Matchers.rhel.query ++ ["HasFixedInVersion"] ∧
+    (∀ i ∈ Gen.Matchers.all, i.id ≠ "rhel" → i.queryIf = []) := by
+  decide
+
+/-- The literals of every `Filter` are the model's. -/
+theorem gen_scan_filter_literals :
+    Gen.Matchers.alpine.filter = ["Distribution==nil", "Distribution.DID=" ++ String.ofList sAlpineID, "Distribution.Name=" ++ String.ofList sAlpineName] ∧
+    Gen.Matchers.aws.filter = ["Distribution==nil", "Distribution.Name=" ++ String.ofList sAwsAL1, "Distribution.Name=" ++ String.ofList sAwsAL2,
+      "Distribution.Name=" ++ String.ofList sAwsAL2, "Distribution.DID=" ++ String.ofList sAwsID] ∧
+    Gen.Matchers.debian.filter = ["Distribution==nil", "Distribution.DID=" ++ String.ofList sDebianID, "Distribution.Name=" ++ String.ofList sDebianName] ∧
+    Gen.Matchers.ubuntu.filter = ["Distribution==nil", "Distribution.DID=" ++ String.ofList sUbuntuID, "Distribution.Name=" ++ String.ofList sUbuntuName] ∧
+    Gen.Matchers.oracle.filter = ["Distribution==nil", "Distribution.DID=" ++ String.ofList sOracleID, "Distribution.Name=" ++ String.ofList sOracleName] ∧
+    Gen.Matchers.photon.filter = ["Distribution!=nil", "Distribution.DID=" ++ String.ofList sPhotonID] ∧
+    Gen.Matchers.suse.filter = ["Distribution==nil", "Distribution.DID=" ++ "|".intercalate (sSuseIDs.map String.ofList),
+      "Distribution.Name=" ++ "|".intercalate (sSuseNames.map String.ofList)] ∧
+    Gen.Matchers.rhel.filter = ["Repository!=nil", "Repository.Key=" ++ String.ofList sRhelKey] ∧
+    Gen.Matchers.rhelRepositoryKey = String.ofList sRhelKey ∧
+    Gen.Matchers.rhcc.filter = ["Repository!=nil", "Repository.Name=" ++ String.ofList sGoldRepo] ∧
+    Gen.Matchers.python.filter = ["Package.NormalizedVersion.Kind=" ++ String.ofList sPep440] ∧
+    Gen.Matchers.java.filter = ["Repository!=nil", "Repository.Name=" ++ String.ofList sMaven] ∧
+    Gen.Matchers.ruby.filter = ["Repository!=nil", "Repository.Name=" ++ String.ofList sRubygems] ∧
+    Gen.Matchers.gobin.filter = ["Repository!=nil", "Repository.URI=" ++ String.ofList sGoURI] ∧
+    Gen.Matchers.nodejs.filter = ["Repository!=nil", "Repository.Name=" ++ String.ofList sNpm] := by
+  decide
+
+/-- matchers/defaults registers the model's default set (nodejs is not among them). -/
+theorem gen_scan_defaults (iu : Bool) :
+    (defaultMatchers iu).map MatcherId.goType = Gen.Matchers.defaults ++ Gen.Matchers.defaultFactories := by
+  cases iu <;> decide
+
+/-- The query builder compares, for every constraint of the model, the column
+    with the record field `holds` uses, and refuses a record without the
+    distribution / repository exactly where `constraintBuildable` says so. -/
+theorem gen_scan_query_columns :
+    (∀ c ∈ Constraint.all, (c.goName ++ ":" ++ c.column ++ ":" ++ c.recordField) ∈ Gen.Matchers.queryColumns) ∧
+    (∀ c ∈ Constraint.all, ∀ r : Rec, constraintBuildable c r =
+      ((!(Gen.Matchers.queryNeeds.contains (c.goName ++ ":Distribution")) || r.dist.isSome) &&
+       (!(Gen.Matchers.queryNeeds.contains (c.goName ++ ":Repository")) || r.repo.isSome))) ∧
+    (∀ c : Constraint, c ∈ Constraint.all) := by
+  refine ⟨by decide, ?_, ?_⟩
+  · intro c hc r
+    simp only [Constraint.all, List.mem_cons, List.mem_nil_iff, or_false] at hc
+    rcases hc with rfl | rfl | rfl | rfl | rfl | rfl | rfl | rfl | rfl | rfl | rfl <;>
+      simp [constraintBuildable, Gen.Matchers.queryNeeds, Constraint.goName]
+  · intro c; cases c <;> decide
+
+end Scan
 
 /-- The hypotheses above are satisfiable: 1.0-1 is below 1.0-2. -/
 example : vulnerableAws { version := "1.0-1".toList } { fixed := "1.0-2".toList } = .ok true := by decide
